@@ -41,6 +41,24 @@ Definition which_way (q t : udl) (thresh : spec_float) : option (nat * nat) :=
   else Some ((if Nat.eqb (w0 s2) 0 then (if Nat.eqb (w2 s2) 0 then 0 else 2) else (if Nat.eqb (w2 s2) 0 then 1 else 3))%nat,
              (length (wd s2) + wplus s2)%nat).
 
+(* ---- SPEC of the pairwise classification, column by column from the statement: a column is
+   (reference, query, target symbol); "carries a difference from the reference that the other lacks" and
+   "both are A/C/G/T and differ" are read literally ---- *)
+Definition col := (N * (N * N))%type.
+Definition nequp (x y : N) : bool := negb (upper x =? upper y).
+Definition c_qonly (c : col) : bool := let '(r, (a, b)) := c in resolved a && resolved b && nequp a r && nequp a b.
+Definition c_tonly (c : col) : bool := let '(r, (a, b)) := c in resolved a && resolved b && nequp b r && nequp a b.
+Definition c_shared (c : col) : bool := let '(r, (a, b)) := c in resolved a && resolved b && nequp a r && negb (nequp a b).
+Definition c_amb (c : col) : bool :=
+  let '(r, (a, b)) := c in (resolved a && nequp a r && negb (resolved b)) || (resolved b && nequp b r && negb (resolved a)).
+Definition c_dist (c : col) : bool := let '(r, (a, b)) := c in resolved a && resolved b && nequp a b.
+Definition countp {A} (f : A -> bool) (l : list A) : nat := length (filter f l).
+Definition spec_which_way (ref q t : list N) (thresh : spec_float) : option (nat * nat) :=
+  let cs := combine ref (combine q t) in
+  let n0 := countp c_qonly cs in let n1 := countp c_shared cs in let n2 := countp c_tonly cs in let n3 := countp c_amb cs in
+  if f64_ltb thresh (f32_div (f32_of_Z (Z.of_nat n3)) (f32_of_Z (Z.of_nat (n0 + n1 + n2 + n3)))) then None
+  else Some ((if Nat.eqb n0 0 then (if Nat.eqb n2 0 then 0 else 2) else (if Nat.eqb n2 0 then 1 else 3))%nat, countp c_dist cs).
+
 (* ---- a hit, the (distance, ambiguity) order ---- *)
 Record hit := { h_name : list N; h_dist : nat; h_amb : nat }.
 Definition hit_lt (a b : hit) : bool :=
